@@ -305,7 +305,8 @@ class SimLock:
             if self.owner is not None and not (self.reentrant and self.owner == "main"):
                 if not blocking:
                     return False
-                raise RuntimeError("SimLock: contended outside simulation")
+                raise RuntimeError("self-deadlock: a non-reentrant lock is acquired again by the thread that already holds it "
+                                   "(with a real lock this call would block forever)")
             self.owner = "main"
             self.depth += 1
             return True
